@@ -23,6 +23,7 @@ type SchedScenario struct {
 	Setup   []Action   // executed sequentially (connection 0) before the concurrent part
 	Threads [][]Action // thread i runs its actions in order on connection i
 	Bound   int        // preemption bound (<0: unbounded)
+	TrackMem bool      // the reported memory figure is part of the outcome
 	NoEager bool       // spawned goroutines are not advanced to their first point at spawn (their start is a scheduling point)
 	MaxExec int        // cap on executions (0 = none); hitting it is reported as non-exhaustive
 }
@@ -288,6 +289,9 @@ func runSchedule(sc *SchedScenario, prefix []int, serialOrder [][2]int, trace bo
 		a := alphaOf(d)
 		out.Final = a.String()
 		out.MemUsed = d.MemUsed
+		if sc.TrackMem {
+			out.Final += fmt.Sprintf(" memUsed=%d", d.MemUsed)
+		}
 		if d.StateCopy || d.StateMutation || d.SnapshotInProg || d.RewriteInProg {
 			out.Final += fmt.Sprintf(" flags(copy=%v mut=%v snap=%v rewrite=%v)", d.StateCopy, d.StateMutation, d.SnapshotInProg, d.RewriteInProg)
 		}
